@@ -184,9 +184,12 @@ def check_C04(ctx):
 def check_C01(ctx):
     kernel_property(ctx, "C01", "Props/Properties_C01.v", ["valid", "toggles", "recycle", "setops", "swaps"],
                     {"DelV", "DelE", "DelF", "DelC", "SwapV", "SwapE", "SwapF", "SwapC", "GC", "EnVBU", "EnEBU", "EnFBU", "AddE", "AddFV", "AddC", "SetE", "SetF", "SetC"},
-                    assumptions=["the invariant is PROVED along all histories of growth operations, checked add_cell and deferred deletions (Properties_C01_history.v); "
-                                 "for collect_garbage, swaps, set_*, immediate-mode deletion and unchecked add_cell it is checked by sound extracted decision "
-                                 "procedures on every explored model state, which is compared cache for cache with the library",
+                    assumptions=["the invariant (caches exact, lists duplicate-free, live cells closed, counters exact) is PROVED for every state reached by a history of "
+                                 "additions, checked add_cell on free halffaces, deletions in all four modes, collect_garbage, mode switches, all incidence toggles incl. "
+                                 "re-enabling, swaps (also with deletions pending), clear and property operations (Properties_C01_all.v: C01_invariant_along_all_histories); "
+                                 "outside that class - set_edge/set_face/set_cell, unchecked add_cell of cells the check would reject (refuted: known finding "
+                                 "nonmanifold-cells-reorder), non-simple faces - it is checked by sound extracted decision procedures on every explored model state, "
+                                 "which is compared cache for cache with the library",
                                  "valid histories: live-handle arguments, no halfface in two live cells, no face listing a halfedge twice"])
     # known finding: on cells that are not closed surfaces the re-ordering can corrupt a halfface list; reported when the
     # recorded replay still shows the duplicate
@@ -199,7 +202,8 @@ def check_C01(ctx):
     def also_prove(vfile): also_prove_file(ctx, vfile)
     if os.path.exists(os.path.join(fw.COQ, "Props/Properties_C01_history.v")):
         also_prove("Props/Properties_C01_history.v")
-        ctx.cov["samples"] += [{"theorem": t} for t in fw.theorem_statements("Props/Properties_C01_history.v", 2)]
+    # ONE invariant over ONE history class covering every kernel operation except set_* and unchecked add_cell of non-closed cells
+    also_prove("Props/Properties_C01_all.v")
     try:
         import checks_iter
         also_prove("Props/Properties_C01_queries.v")
